@@ -285,3 +285,20 @@ def minimise(case, viol):
     from sim import runner
     import sys
     return runner.ddmin_plan(sys.modules[__name__], case, viol["cls"])
+
+
+_WARM = [False]
+
+
+def warmup():
+    """CPython 3.12 delivers a slightly different line-event sequence the first time a code object runs under sys.settrace in a
+    process; so that 'one seed = one execution' also holds for the first real run, every process first runs a fixed throw-away batch."""
+    if _WARM[0]:
+        return
+    _WARM[0] = True
+    import random as _r
+    for k in range(6):
+        try:
+            generate(_r.Random(90000 + k), "quick", -1 - k)
+        except Exception:   # pylint: disable=broad-except
+            pass
